@@ -2,7 +2,9 @@ package agreesim
 
 import (
 	"bytes"
+	"context"
 	"crypto/sha256"
+	"database/sql"
 	"fmt"
 	"io"
 	"os"
@@ -51,7 +53,8 @@ type Config struct {
 	RelayKeepPct                                              int
 	MaxCrashes                                                int
 	SlowFlush                                                 bool
-	DBErr                                                     bool
+	DBErr                                                     bool // C02: writes to the crash DB fail for a while (injected disk error; old data stays)
+	PersistFirst                                              bool // C02: persists complete before the votes they protect are verified (newSimPool)
 	Craft                                                     bool // adversary hand-crafted votes
 	Sync                                                      bool // C05: run a synchronous phase after the async prefix
 	AsyncSteps                                                int
@@ -79,6 +82,7 @@ type Node struct {
 	factoryID int64
 	asmRound  basics.Round // block factory: assemblies of the current round so far (survives crashes, like a clock)
 	asmCount  int64
+	dbBroken  bool // C02: an injected trigger makes every write to the crash DB fail
 	stalled   bool // main loop blocked behind a slow ledger flush: no deliveries, no timers until the flush action
 	stimmed   bool // this step handed the node's main loop an event; stimSnap = its demux.next count before that
 	stimSnap  int
@@ -249,6 +253,14 @@ func (s *Sim) quiesce() {
 			opened = true
 		}
 		if !opened {
+			for _, n := range s.nodes {
+				if n.led.openLateGate() {
+					opened = true
+					break
+				}
+			}
+		}
+		if !opened {
 			// A main loop that is not back in its select although the bubble is quiescent is blocked on the
 			// persistence queue (two persists already wait behind a slow ledger flush). Messages delivered now
 			// would pile up unread and be consumed in a race once the flush comes.
@@ -385,6 +397,10 @@ func drawConfig(tp *kernel.Tape, prop, tier string) Config {
 			c.SlowFlush = tp.Chance("cfg.slowflush2", 3, 4)
 		}
 		c.DBErr = tp.Chance("cfg.dberr", 1, 4)
+		if prop == "C02" {
+			c.DBErr = tp.Chance("cfg.dberr2", 1, 2)
+			c.PersistFirst = tp.Chance("cfg.persistfirst", 1, 2)
+		}
 	}
 	if c.Ghost {
 		c.WCrash, c.WTrig, c.MaxCrashes, c.WPart, c.WStarve = 0, 0, 0, 0, 0
@@ -456,6 +472,10 @@ func (s *Sim) startInst(n *Node, dbPath string, shadow bool) (*inst, error) {
 		n.tmu.Unlock()
 	}
 	lv := ledgerView{n.led, in}
+	var lateLedger *simLedger
+	if s.cfg.PersistFirst && !shadow {
+		lateLedger = n.led
+	}
 	p := agreement.Parameters{
 		Ledger:         lv,
 		Network:        in.net,
@@ -467,7 +487,7 @@ func (s *Sim) startInst(n *Node, dbPath string, shadow bool) (*inst, error) {
 		Accessor:       acc,
 		Logger:         s.newLogger(),
 		Local:          config.GetDefaultLocal(),
-		BacklogPool:    newSimPool(),
+		BacklogPool:    newSimPool(lateLedger),
 	}
 	p.Local.CadaverSizeTarget = 0
 	svc, err := agreement.MakeService(p)
@@ -984,8 +1004,9 @@ func (s *Sim) asyncStep() {
 		fStarve
 		fCraft
 		fHold
+		fDBFail
 	)
-	fw := make([]int, 9)
+	fw := make([]int, 10)
 	fw[fNone] = 1000
 	if len(del) > 0 {
 		fw[fDrop] = c.WDrop
@@ -1002,6 +1023,9 @@ func (s *Sim) asyncStep() {
 	fw[fStarve] = c.WStarve
 	if len(honestAlive) > 0 {
 		fw[fHold] = c.WHold
+		if c.DBErr && c.Prop == "C02" {
+			fw[fDBFail] = 5
+		}
 	}
 	if c.Craft && (c.AdvInst > 0 || c.Ghost) {
 		fw[fCraft] = 15
@@ -1079,6 +1103,23 @@ func (s *Sim) asyncStep() {
 		n.starve = 5 + rB%116
 		s.log.Add("starve n%d for %d", n.id, n.starve)
 		s.stat("stall", 1)
+		return
+	case fDBFail:
+		n := honestAlive[rA%len(honestAlive)]
+		if n.cur != nil && n.cur.histOK {
+			q, what := "create trigger if not exists verif_fail before insert on Service begin select raise(abort, 'verif: injected disk error'); end", "fail"
+			if n.dbBroken {
+				q, what = "drop trigger if exists verif_fail", "work again"
+			}
+			err := n.cur.hist.Atomic(func(ctx context.Context, tx *sql.Tx) error { _, e := tx.Exec(q); return e })
+			if err != nil {
+				s.harness = "db fault: " + err.Error()
+				return
+			}
+			n.dbBroken = !n.dbBroken
+			s.log.Add("crash DB of n%d: writes %s", n.id, what)
+			s.stat("db_write_fault_toggled", 1)
+		}
 		return
 	case fHold:
 		n := honestAlive[rA%len(honestAlive)]
